@@ -19,5 +19,5 @@ echo "== demo with patch (expect FAIL)"
 go test -vet=off -count=1 "$@" 2>&1 | tail -8
 echo "== package tests with patch, demo removed (expect ok)"
 for f in "$seed"/*_test.go; do rm -f "$dest/$(basename "$f")"; done
-go test -short -vet=off -count=1 "./$dest/..." 2>&1 | tail -5
+go test -short -vet=off -count=1 "./$dest/" 2>&1 | tail -5
 cd /; git -C /repo worktree remove --force "$wt"
